@@ -327,16 +327,18 @@ func init() {
 				ctr := c.field(parts[0], parts[1])
 				ok := false
 				for _, a := range c.storesIn(fn, ctr) {
-					b, isB := a.Val.(*ssa.BinOp)
-					if !isB || b.Op != s.op || !IsLoadOf(ctr)(b.X) {
-						continue
-					}
-					var base ssa.Value
-					if s.chunk != nil {
-						base = s.chunk(fn)
-					}
-					if lenOf(ud, base)(b.Y) {
-						ok = true
+					// the adjustment ctr ± len(userData), possibly clamped (if ctr < 0 {ctr = 0} / max(ctr−len, 0))
+					for _, b := range binOpsInSlice(a.Val, s.op, 0) {
+						if !IsLoadOf(ctr)(b.X) {
+							continue
+						}
+						var base ssa.Value
+						if s.chunk != nil {
+							base = s.chunk(fn)
+						}
+						if lenOf(ud, base)(b.Y) {
+							ok = true
+						}
 					}
 				}
 				c.Check(ok, "paired:"+s.fn, c.P.Pos(fn.Pos()), fmt.Sprintf("nBytes %s= len(chunk.userData)", s.op), "byte counter not adjusted by the chunk's payload length")
@@ -567,4 +569,33 @@ func nilTestOfPhiFrom(cond ssa.Value, taken bool, pat VPat) bool {
 		n++
 	}
 	return n > 0
+}
+
+// binOpsInSlice: binary operations with operator op in the value's backward
+// slice through conversions, φ and the min/max builtins.
+func binOpsInSlice(v ssa.Value, op token.Token, d int) []*ssa.BinOp {
+	if d > 5 || v == nil {
+		return nil
+	}
+	switch x := unconv(v).(type) {
+	case *ssa.BinOp:
+		if x.Op == op {
+			return []*ssa.BinOp{x}
+		}
+	case *ssa.Phi:
+		var out []*ssa.BinOp
+		for _, e := range x.Edges {
+			out = append(out, binOpsInSlice(e, op, d+1)...)
+		}
+		return out
+	case *ssa.Call:
+		if b, ok := x.Call.Value.(*ssa.Builtin); ok && (b.Name() == "max" || b.Name() == "min") {
+			var out []*ssa.BinOp
+			for _, a := range x.Call.Args {
+				out = append(out, binOpsInSlice(a, op, d+1)...)
+			}
+			return out
+		}
+	}
+	return nil
 }
